@@ -121,6 +121,8 @@ func (g *core) render(c gengo.Context, parts []proto.Part) {
 			c.Render(snippet.Block(docComment(c, p.DocRef)))
 		case p.Results:
 			c.Render(snippet.Block(resultsComment(c)))
+		case p.Octal:
+			c.Render(snippet.Block("\nconst " + p.Text + " = 0644\n"))
 		case p.FieldDocs:
 			c.Render(snippet.Block(fieldDocsComment(c, st.curObj)))
 		case p.Locate != "":
